@@ -242,7 +242,7 @@ fn classify(ctx: &ShardCtx, prefix: &str, data: &[u8], r: &fuzzrun::Reach) {
 }
 
 fn run_shard(ctx: &ShardCtx) {
-    ctx.run_prop("raw-session", ctx.tier.pick(300_000, 4_000_000), case_strategy(), |d| input_json(d), |data| match fuzzrun::run(data) {
+    ctx.run_prop("raw-session", ctx.tier.pick(1_000_000, 10_000_000), case_strategy(), |d| input_json(d), |data| match fuzzrun::run(data) {
         Ok(r) => {
             classify(ctx, "proptest", data, &r);
             Ok(())
